@@ -3,6 +3,8 @@
 package protojson
 
 import (
+	"encoding/base64"
+
 	"google.golang.org/protobuf/internal/encoding/json"
 	"google.golang.org/protobuf/reflect/protoreflect"
 
@@ -292,6 +294,190 @@ func H_C23_duration_range() {
 				want, wn = -want, -wn
 			}
 			nd.Assert(secs == want && nanos == wn, "stored seconds and nanos are exact")
+		}
+	}
+}
+
+// H_C22_quoted: integer fields accept quoted numbers exactly like unquoted ones: for every
+// string s over the number alphabet, "s" is accepted iff s is, as a whole, a JSON number that the
+// unquoted path accepts, with the same value; leading/trailing space and trailing garbage are rejected.
+//
+//verif:props=C22 bounds=quoted-strings<=3(quick)/4(thorough)-bytes-over[0-9eE+-.space];int32/int64/uint32/uint64
+func H_C22_quoted() {
+	N := 3
+	if nd.Thorough() {
+		N = 4
+	}
+	s := nd.String(N)
+	for i := 0; i < len(s); i++ {
+		c := s[i]
+		nd.Assume(c23digit(c) || c == 'e' || c == 'E' || c == '+' || c == '-' || c == '.' || c == ' ')
+	}
+	q := append(append([]byte{'"'}, s...), '"')
+	tq, err := json.NewDecoder(q).Read()
+	nd.Assert(err == nil && tq.Kind() == json.String, "quoted content is a string token")
+	if err != nil {
+		return
+	}
+	// the unquoted path on the same content (must be exactly one number token)
+	dn := json.NewDecoder([]byte(s))
+	tn, nerr := dn.Read()
+	whole := false
+	if nerr == nil && tn.Kind() == json.Number {
+		next, e2 := dn.Read()
+		whole = e2 == nil && next.Kind() == json.EOF && len(tn.RawString()) == len(s)
+	}
+	bits := 32
+	if nd.Bool() {
+		bits = 64
+	}
+	if nd.Bool() {
+		vq, okq := unmarshalInt(tq, bits)
+		if whole {
+			nd.Reach("number (signed)")
+			vn, okn := unmarshalInt(tn, bits)
+			nd.Assert(okq == okn, "quoted and unquoted integers are accepted alike")
+			if okq && okn {
+				nd.Assert(vq.Int() == vn.Int(), "same value")
+			}
+		} else {
+			nd.Reach("not a number (signed)")
+			nd.Assert(!okq, "a quoted non-number (or a number with surrounding garbage) is rejected")
+		}
+	} else {
+		vq, okq := unmarshalUint(tq, bits)
+		if whole {
+			nd.Reach("number (unsigned)")
+			vn, okn := unmarshalUint(tn, bits)
+			nd.Assert(okq == okn, "quoted and unquoted unsigned integers are accepted alike")
+			if okq && okn {
+				nd.Assert(vq.Uint() == vn.Uint(), "same value")
+			}
+		} else {
+			nd.Reach("not a number (unsigned)")
+			nd.Assert(!okq, "a quoted non-number is rejected")
+		}
+	}
+}
+
+// H_C22_bytes: bytes fields: what protojson writes for a bytes value (standard base64 with
+// padding) is read back exactly; the URL-safe alphabet and unpadded forms of the same value are
+// accepted on input with the same result.
+//
+//verif:props=C22 bounds=all-byte-strings<=2(quick)/3(thorough);4-base64-variants(std,url,raw-std,raw-url) maxsteps=6000000 deadline=900
+func H_C22_bytes() {
+	N := 2
+	if nd.Thorough() {
+		N = 3
+	}
+	b := nd.Bytes(N)
+	var s string
+	switch nd.Int(0, 3) {
+	case 0:
+		s = base64.StdEncoding.EncodeToString(b)
+		nd.Reach("standard")
+	case 1:
+		s = base64.URLEncoding.EncodeToString(b)
+		nd.Reach("url-safe")
+	case 2:
+		s = base64.RawStdEncoding.EncodeToString(b)
+		nd.Reach("unpadded")
+	default:
+		s = base64.RawURLEncoding.EncodeToString(b)
+		nd.Reach("unpadded url-safe")
+	}
+	q := append(append([]byte{'"'}, s...), '"')
+	tok, err := json.NewDecoder(q).Read()
+	nd.Assert(err == nil && tok.Kind() == json.String, "base64 text is a plain JSON string")
+	if err != nil {
+		return
+	}
+	v, ok := unmarshalBytes(tok)
+	nd.Assert(ok, "every base64 form of the value is accepted")
+	if ok {
+		got := v.Bytes()
+		same := len(got) == len(b)
+		if same {
+			for i := range b {
+				e := got[i] == b[i]
+				same = same && e
+			}
+		}
+		nd.Assert(same, "bytes value decodes exactly")
+	}
+}
+
+// ---- model FieldMask message ----
+
+type c23list struct {
+	protoreflect.List
+	vs *[]string
+}
+
+func (l c23list) Len() int                    { return len(*l.vs) }
+func (l c23list) Get(i int) protoreflect.Value { return protoreflect.ValueOfString((*l.vs)[i]) }
+func (l c23list) Append(v protoreflect.Value)  { *l.vs = append(*l.vs, v.String()) }
+func (l c23list) IsValid() bool                { return true }
+
+type c23mask struct {
+	protoreflect.Message
+	paths *[]string
+}
+
+func (m c23mask) Descriptor() protoreflect.MessageDescriptor { return c23md{} }
+func (m c23mask) Get(protoreflect.FieldDescriptor) protoreflect.Value {
+	return protoreflect.ValueOfList(c23list{vs: m.paths})
+}
+func (m c23mask) Mutable(protoreflect.FieldDescriptor) protoreflect.Value {
+	return protoreflect.ValueOfList(c23list{vs: m.paths})
+}
+
+func c23strEq(a, b string) bool {
+	if len(a) != len(b) {
+		return false
+	}
+	ok := true
+	for i := 0; i < len(a); i++ {
+		ok = ok && a[i] == b[i]
+	}
+	return ok
+}
+
+// H_C23_fieldmask: FieldMask JSON form: for a mask with one or two paths over identifier
+// characters, marshalFieldMask fails for invalid or irreversible paths and otherwise writes a
+// JSON string that unmarshalFieldMask reads back as exactly the same paths.
+//
+//verif:props=C23,C20 bounds=1..2-paths-of<=3-bytes-over[a-zA-Z0-9_.] ifconv=1 maxsteps=6000000
+func H_C23_fieldmask() {
+	n := nd.Int(1, 2)
+	paths := make([]string, n)
+	for i := range paths {
+		p := nd.String(3)
+		for k := 0; k < len(p); k++ {
+			c := p[k]
+			nd.Assume(('a' <= c && c <= 'z') || ('A' <= c && c <= 'Z') || c23digit(c) || c == '_' || c == '.')
+		}
+		paths[i] = p
+	}
+	in := append([]string(nil), paths...)
+	enc, _ := json.NewEncoder(nil, "")
+	err := encoder{enc, MarshalOptions{}}.marshalFieldMask(c23mask{paths: &in})
+	if err != nil {
+		nd.Reach("refused")
+		return
+	}
+	nd.Reach("marshalled")
+	out := enc.Bytes()
+	var back []string
+	dec := decoder{json.NewDecoder(out), UnmarshalOptions{}}
+	uerr := dec.unmarshalFieldMask(c23mask{paths: &back})
+	nd.Assert(uerr == nil, "what marshalFieldMask writes is accepted by unmarshalFieldMask")
+	if uerr == nil {
+		nd.Assert(len(back) == n, "same number of paths")
+		if len(back) == n {
+			for i := range paths {
+				nd.Assert(c23strEq(back[i], paths[i]), "path round trips exactly")
+			}
 		}
 	}
 }
